@@ -444,6 +444,7 @@ func (ff *FuncFacts) condAtomsX(c ssa.Value, pol bool) []string {
 			eq := (b.Op == token.EQL) == pol
 			if eq {
 				out = append(out, "ok("+call+")")
+				out = append(out, ff.importHelperFacts(b.X)...)
 			} else {
 				out = append(out, "err("+call+")")
 			}
@@ -1209,4 +1210,50 @@ func (ff *FuncFacts) everyIteration(B *ssa.BasicBlock, lp *Loop) bool {
 		}
 	}
 	return true
+}
+
+// importHelperFacts: the error value errv is the (last) result of a call to a single-use check helper:
+// what the helper establishes on success holds in the caller after "ok(call)".
+func (ff *FuncFacts) importHelperFacts(errv ssa.Value) []string {
+	var call *ssa.Call
+	switch x := errv.(type) {
+	case *ssa.Call:
+		call = x
+	case *ssa.Extract:
+		call, _ = x.Tuple.(*ssa.Call)
+	case *ssa.UnOp:
+		// spilled error variable: follow a single reaching store
+		if al, ok := x.X.(*ssa.Alloc); ok {
+			var st *ssa.Store
+			n := 0
+			for _, rf := range *al.Referrers() {
+				if s, ok := rf.(*ssa.Store); ok && s.Addr == al {
+					st, n = s, n+1
+				}
+			}
+			if n == 1 {
+				return ff.importHelperFacts(st.Val)
+			}
+		}
+	}
+	if call == nil {
+		return nil
+	}
+	f := call.Call.StaticCallee()
+	if f == nil || f == ff.Fn {
+		return nil
+	}
+	fs := ff.P.checkHelperFacts(f)
+	if len(fs) == 0 {
+		return nil
+	}
+	var args []string
+	for _, a := range call.Call.Args {
+		args = append(args, ff.Term(a))
+	}
+	var out []string
+	for _, a := range fs {
+		out = append(out, substParams(a, args))
+	}
+	return out
 }
